@@ -39,7 +39,9 @@ class Hub(object):
         # Dictionary of subscriptions
         self._subscriptions = WeakKeyDictionary()
 
-        self._paused = False
+        # number of delay_callbacks blocks that are currently open (the
+        # blocks can be nested, so this is a counter rather than a flag)
+        self._paused = 0
         self._queue = []
 
         self._ignore = Counter()
@@ -199,15 +201,22 @@ class Hub(object):
 
     @contextmanager
     def delay_callbacks(self):
-        self._paused = True
+        """
+        Context manager that holds back all messages broadcast inside the
+        block and delivers them, in order, once the block is left. The blocks
+        can be nested, in which case messages are delivered when the outermost
+        block is left.
+        """
+        self._paused += 1
         try:
             yield
         finally:
-            self._paused = False
-            # TODO: could de-duplicate messages here
-            for message in self._queue:
-                self.broadcast(message)
-            self._queue = []
+            self._paused -= 1
+            if self._paused == 0:
+                # TODO: could de-duplicate messages here
+                for message in self._queue:
+                    self.broadcast(message)
+                self._queue = []
 
     def broadcast(self, message):
         """Broadcasts a message to all subscribed objects.
